@@ -96,6 +96,12 @@ def run(ctx):
                           I("g"), T("OBracket"), I("c"), T("CBracket")]
             deep.append("bodymemo" + prog.wire(b, per_line=11)[5:])
             ctx.count("long-body")
+    if ctx.harness_reduced:
+        # the harness's own implementations of the parser-context trait no longer compile against /repo/src: the body modes
+        # are not available; the tie is broken (and said so), the whole-file cases below still run
+        ctx.oblige("tie:body-modes (keep-nothing / counting contexts written against the public IParserContext trait) compile against /repo/src",
+                   False, "; ".join(ctx.notes)[-1500:])
+        body, deep = [], []
     ideep = ctx.run_harness("bodymemo", deep, timeout=600)
     mdeep = ctx.run_driver(deep, timeout=600)
     ctx.compare("bodymemo(towers)", deep, ideep, mdeep)
@@ -147,7 +153,11 @@ def run(ctx):
              [I("a"), T("Dot", "."), I("f"), T("OBracket"), I("x"), T("CBracket")]]
     gdecls = [[I("gC"), T("Colon"), I("int4")],
               [I("gD"), T("Colon"), I("int4"), T("Absolute", "absolute"), I("gE")],
-              [T("Memory", "memory"), I("gM"), T("Colon"), I("int4")]]
+              [T("Memory", "memory"), I("gM"), T("Colon"), I("int4")],
+              [T("Type", "type"), I("tI"), T("Colon"), T("NumericLiteral", "1"), T("To", "to"), T("NumericLiteral", "10")],
+              [I("gR"), T("Colon"), T("NumericLiteral", "1"), T("To", "to"), T("NumericLiteral", "5")],
+              [T("Const", "const"), I("cK"), T("Equals", "="), T("NumericLiteral", "3")],
+              [T("Type", "type"), I("tA"), T("Colon"), T("OSqrBracket"), T("NumericLiteral", "1"), T("To", "to"), T("NumericLiteral", "4"), T("CSqrBracket"), I("int4")]]
     for i in range(400 if q else 6000):
         d1 = [T("Proc", "proc"), I("P%d" % (i % 7))]
         for _ in range(1 + rng.below(4)):
@@ -193,7 +203,7 @@ def run(ctx):
         if inner(ta) != inner(tx) + inner(ty):
             ctx.oracle_fail("C07:leak-between-bodies", "a file parsed whole differs from its declarations parsed alone",
                             {"mode": "parse", "case": w, "whole": a[:1500], "first-alone": x[:800], "second-alone": y[:800]})
-    ctx.samples = [{"case": body[i][:300], "implementation": impl[i][:300]} for i in (5, len(body) // 2, len(body) - 1)]
+    ctx.samples = [{"case": body[i][:300], "implementation": impl[i][:300]} for i in (5, len(body) // 2, len(body) - 1) if 0 <= i < len(body)]
     return ctx.finish(rule=RULE, extra={"exhaustive": True, "evaluations_vs_tokens(measured on towers)": ctx.coverage.get("evaluations_vs_tokens")})
 
 
